@@ -12241,104 +12241,116 @@ func E11ViewScaleInvariant(c *core.Ctx, r *core.Report) {
 
 // E11ImageExtentFromSize: the extent of an image is the size of its rectangle, not its far corner.
 func E11ImageExtentFromSize(c *core.Ctx, r *core.Report) {
-	r.Rule("E11.image-extent-from-size", "an image.Image may have a rectangle that does not start at (0,0) (a SubImage crop); renderers and Canvas.Fit treat it as occupying (0,0)–(Size) in its own pixel space. In canvas.go every use of the far corner of an image rectangle (`.Max.X`, `.Max.Y` of a value of type image.Rectangle) is the minuend of a subtraction whose subtrahend is the near corner of the same rectangle and axis (`Max − Min`, conversions looked through), or the extent is taken with Size()/Dx()/Dy(). An extent or a reflection axis computed from Max alone is off by Min: a cropped image drawn under CartesianII–IV stays upright but is displaced")
-	p := c.MustPkg("")
-	info := p.TypesInfo
-	isRect := func(e ast.Expr) bool {
-		t := info.TypeOf(e)
-		if t == nil {
-			return false
-		}
-		nt, ok := t.(*types.Named)
-		return ok && nt.Obj().Name() == "Rectangle" && nt.Obj().Pkg() != nil && nt.Obj().Pkg().Path() == "image"
-	}
+	r.Rule("E11.image-extent-from-size", "an image.Image may have a rectangle that does not start at (0,0) (a SubImage crop); renderers and Canvas.Fit treat it as occupying (0,0)–(Size) in its own pixel space. In canvas.go and in the four back-ends every use of the far corner of an image rectangle (`.Max.X`, `.Max.Y` of a value of type image.Rectangle) is the minuend of a subtraction whose subtrahend is the near corner of the same rectangle and axis (`Max − Min`, conversions looked through), or the extent is taken with Size()/Dx()/Dy(). An extent or a reflection axis computed from Max alone is off by Min: a cropped image drawn under CartesianII–IV stays upright but is displaced")
 	n := 0
-	for _, fd := range core.AllFuncDecls(p) {
-		if fd.Body == nil || !strings.HasSuffix(c.Fset.Position(fd.Pos()).Filename, "canvas.go") {
-			continue
+	for _, rel := range []string{"", "renderers/svg", "renderers/pdf", "renderers/ps", "renderers/rasterizer"} {
+		p := c.MustPkg(rel)
+		info := p.TypesInfo
+		pk := "canvas"
+		if rel != "" {
+			pk = rel
 		}
-		k := 0
-		var stack []ast.Node
-		ast.Inspect(fd.Body, func(m ast.Node) bool {
-			if m == nil {
-				stack = stack[:len(stack)-1]
-				return true
+		isRect := func(e ast.Expr) bool {
+			t := info.TypeOf(e)
+			if t == nil {
+				return false
 			}
-			stack = append(stack, m)
-			// extents taken with Size()/Dx()/Dy()
-			if call, ok := m.(*ast.CallExpr); ok {
-				if se, ok := call.Fun.(*ast.SelectorExpr); ok && isRect(se.X) && (se.Sel.Name == "Size" || se.Sel.Name == "Dx" || se.Sel.Name == "Dy") {
-					k++
-					n++
-					r.OK("E11.image-extent-from-size", fmt.Sprintf("canvas.%s|image extent #%d", core.FuncName(fd), k), c.Pos(call.Pos()), types.ExprString(call))
+			nt, ok := t.(*types.Named)
+			return ok && nt.Obj().Name() == "Rectangle" && nt.Obj().Pkg() != nil && nt.Obj().Pkg().Path() == "image"
+		}
+		for _, fd := range core.AllFuncDecls(p) {
+			if fd.Body == nil || strings.HasSuffix(c.Fset.Position(fd.Pos()).Filename, "_test.go") || (rel == "" && !strings.HasSuffix(c.Fset.Position(fd.Pos()).Filename, "canvas.go")) {
+				continue
+			}
+			k := 0
+			var stack []ast.Node
+			ast.Inspect(fd.Body, func(m ast.Node) bool {
+				if m == nil {
+					stack = stack[:len(stack)-1]
+					return true
 				}
-				return true
-			}
-			// R.Max.X / R.Max.Y
-			se, ok := m.(*ast.SelectorExpr)
-			if !ok || (se.Sel.Name != "X" && se.Sel.Name != "Y") {
-				return true
-			}
-			inner, ok := core.Unparen(se.X).(*ast.SelectorExpr)
-			if !ok || inner.Sel.Name != "Max" || !isRect(inner.X) {
-				return true
-			}
-			// an assignment to the corner (cropping a rectangle) is not a use of the extent
-			if len(stack) >= 2 {
-				if as, ok := stack[len(stack)-2].(*ast.AssignStmt); ok {
-					for _, l := range as.Lhs {
-						if l == ast.Expr(se) {
-							return true
-						}
+				stack = append(stack, m)
+				// extents taken with Size()/Dx()/Dy()
+				if call, ok := m.(*ast.CallExpr); ok {
+					if se, ok := call.Fun.(*ast.SelectorExpr); ok && isRect(se.X) && (se.Sel.Name == "Size" || se.Sel.Name == "Dx" || se.Sel.Name == "Dy") {
+						k++
+						n++
+						r.OK("E11.image-extent-from-size", fmt.Sprintf("%s.%s|image extent #%d", pk, core.FuncName(fd), k), c.Pos(call.Pos()), types.ExprString(call))
 					}
+					return true
 				}
-			}
-			k++
-			n++
-			key := fmt.Sprintf("canvas.%s|image extent #%d", core.FuncName(fd), k)
-			// the enclosing expression up to the statement mentions the Min of the same axis
-			// the far corner is the minuend of a subtraction whose subtrahend is the near corner of the same
-			// rectangle and axis (conversions and parentheses in between are looked through)
-			paired := false
-			stripConv := func(e ast.Expr) ast.Expr {
-				for {
-					e = core.Unparen(e)
-					call, ok := e.(*ast.CallExpr)
-					if !ok || len(call.Args) != 1 {
-						return e
-					}
-					if tv, ok := info.Types[call.Fun]; !ok || !tv.IsType() {
-						return e
-					}
-					e = call.Args[0]
+				// R.Max.X / R.Max.Y
+				se, ok := m.(*ast.SelectorExpr)
+				if !ok || (se.Sel.Name != "X" && se.Sel.Name != "Y") {
+					return true
 				}
-			}
-			for i := len(stack) - 2; i >= 0; i-- {
-				switch x := stack[i].(type) {
-				case *ast.ParenExpr:
-					continue
-				case *ast.CallExpr:
-					if tv, ok := info.Types[x.Fun]; ok && tv.IsType() {
-						continue
-					}
-				case *ast.BinaryExpr:
-					if x.Op == token.SUB && stripConv(x.X) == ast.Expr(se) {
-						if s2, ok := stripConv(x.Y).(*ast.SelectorExpr); ok && s2.Sel.Name == se.Sel.Name {
-							if in2, ok := core.Unparen(s2.X).(*ast.SelectorExpr); ok && in2.Sel.Name == "Min" && types.ExprString(in2.X) == types.ExprString(inner.X) {
-								paired = true
+				inner, ok := core.Unparen(se.X).(*ast.SelectorExpr)
+				if !ok || inner.Sel.Name != "Max" || !isRect(inner.X) {
+					return true
+				}
+				// an assignment to the corner (cropping a rectangle) is not a use of the extent
+				if len(stack) >= 2 {
+					if as, ok := stack[len(stack)-2].(*ast.AssignStmt); ok {
+						for _, l := range as.Lhs {
+							if l == ast.Expr(se) {
+								return true
 							}
 						}
 					}
 				}
-				break
-			}
-			if paired {
-				r.OK("E11.image-extent-from-size", key, c.Pos(se.Pos()), "Max − Min")
-			} else {
-				r.Fail("E11.image-extent-from-size", key, c.Pos(se.Pos()), fmt.Sprintf("`%s` takes the far corner of the image's rectangle without its near corner: for an image whose rectangle does not start at the origin (a SubImage) the extent, or an axis of reflection derived from it, is off by Min — under CartesianII–IV the image is drawn displaced by Min/resolution", types.ExprString(se)))
-			}
-			return true
-		})
+				// the bound of a loop over the pixels (`i < b.Max.X`) is not an extent
+				if len(stack) >= 2 {
+					if be, ok := stack[len(stack)-2].(*ast.BinaryExpr); ok && (be.Op == token.LSS || be.Op == token.LEQ || be.Op == token.GTR || be.Op == token.GEQ) {
+						return true
+					}
+				}
+				k++
+				n++
+				key := fmt.Sprintf("%s.%s|image extent #%d", pk, core.FuncName(fd), k)
+				// the enclosing expression up to the statement mentions the Min of the same axis
+				// the far corner is the minuend of a subtraction whose subtrahend is the near corner of the same
+				// rectangle and axis (conversions and parentheses in between are looked through)
+				paired := false
+				stripConv := func(e ast.Expr) ast.Expr {
+					for {
+						e = core.Unparen(e)
+						call, ok := e.(*ast.CallExpr)
+						if !ok || len(call.Args) != 1 {
+							return e
+						}
+						if tv, ok := info.Types[call.Fun]; !ok || !tv.IsType() {
+							return e
+						}
+						e = call.Args[0]
+					}
+				}
+				for i := len(stack) - 2; i >= 0; i-- {
+					switch x := stack[i].(type) {
+					case *ast.ParenExpr:
+						continue
+					case *ast.CallExpr:
+						if tv, ok := info.Types[x.Fun]; ok && tv.IsType() {
+							continue
+						}
+					case *ast.BinaryExpr:
+						if x.Op == token.SUB && stripConv(x.X) == ast.Expr(se) {
+							if s2, ok := stripConv(x.Y).(*ast.SelectorExpr); ok && s2.Sel.Name == se.Sel.Name {
+								if in2, ok := core.Unparen(s2.X).(*ast.SelectorExpr); ok && in2.Sel.Name == "Min" && types.ExprString(in2.X) == types.ExprString(inner.X) {
+									paired = true
+								}
+							}
+						}
+					}
+					break
+				}
+				if paired {
+					r.OK("E11.image-extent-from-size", key, c.Pos(se.Pos()), "Max − Min")
+				} else {
+					r.Fail("E11.image-extent-from-size", key, c.Pos(se.Pos()), fmt.Sprintf("`%s` takes the far corner of the image's rectangle without its near corner: for an image whose rectangle does not start at the origin (a SubImage) the extent, or an axis of reflection derived from it, is off by Min — under CartesianII–IV the image is drawn displaced by Min/resolution", types.ExprString(se)))
+				}
+				return true
+			})
+		}
 	}
 	r.Count("E11.image-extent-from-size", n)
 	r.Floor("E11.image-extent-from-size", 6)
@@ -15005,4 +15017,300 @@ func E11StaleAfterBuilder(c *core.Ctx, r *core.Report) {
 	} else {
 		r.Fail("E11.stale-after-builder", key, c.Pos(fd.Pos()), bad)
 	}
+}
+
+// E11QuadLineTestMirror: QuadTo's "this is a straight line" test looks the same from both ends.
+func E11QuadLineTestMirror(c *core.Ctx, r *core.Report) {
+	r.Rule("E11.quad-line-test-mirror", "Path.QuadTo stores a line instead of a curve when the control point lies on the segment between start and end. A quadratic traced backwards is the same curve, so the condition is its own mirror image: with start and end exchanged (and every pair of vectors in an AngleBetween negated together, which leaves the angle as it is) the set of its conjuncts — each a set of alternatives: an equality of two points, or two vectors pointing the same way — is the same set. A condition that tests the control point from the start only also accepts a control point beyond the end: `QuadTo(20,0, 10,0)` from the origin overshoots to x = 13.3 and comes back, and would be stored as `L10 0`")
+	p := c.MustPkg("")
+	info := p.TypesInfo
+	fd := core.MustFuncDecl(p, "Path.QuadTo")
+	defs := singleDefs(info, fd.Body)
+	// the if statement whose body draws a line instead
+	var target *ast.IfStmt
+	ast.Inspect(fd.Body, func(m ast.Node) bool {
+		is, ok := m.(*ast.IfStmt)
+		if !ok {
+			return true
+		}
+		for _, st := range is.Body.List {
+			if es, ok := st.(*ast.ExprStmt); ok {
+				if call, ok := es.X.(*ast.CallExpr); ok {
+					if f := core.CalleeOf(info, call); f != nil && f.Name() == "LineTo" {
+						target = is
+					}
+				}
+			}
+		}
+		return true
+	})
+	key := "canvas.Path.QuadTo|the straight-line test is its own mirror image"
+	r.Count("E11.quad-line-test-mirror", 1)
+	if target == nil {
+		r.Fail("E11.quad-line-test-mirror", key, c.Pos(fd.Pos()), "the branch that stores a line instead of the curve was not found")
+		return
+	}
+	// point names: locals/params, resolved through single definitions of vectors
+	var vec func(e ast.Expr, depth int) (string, string, bool) // to, from
+	vec = func(e ast.Expr, depth int) (string, string, bool) {
+		e = core.Unparen(e)
+		if depth > 3 {
+			return "", "", false
+		}
+		if id, ok := e.(*ast.Ident); ok {
+			if d, ok := defs[core.ObjOf(info, id)]; ok {
+				return vec(d, depth+1)
+			}
+			return "", "", false
+		}
+		call, ok := e.(*ast.CallExpr)
+		if !ok || len(call.Args) != 1 {
+			return "", "", false
+		}
+		se, ok := call.Fun.(*ast.SelectorExpr)
+		if !ok || se.Sel.Name != "Sub" {
+			return "", "", false
+		}
+		a, ok1 := core.Unparen(se.X).(*ast.Ident)
+		b, ok2 := core.Unparen(call.Args[0]).(*ast.Ident)
+		if !ok1 || !ok2 {
+			return "", "", false
+		}
+		return a.Name, b.Name, true
+	}
+	bad := ""
+	atom := func(e ast.Expr, swap func(string) string) string {
+		e = core.Unparen(e)
+		neg := ""
+		if u, ok := e.(*ast.UnaryExpr); ok && u.Op == token.NOT {
+			neg, e = "!", core.Unparen(u.X)
+		}
+		call, ok := e.(*ast.CallExpr)
+		if !ok {
+			bad = "`" + c.Src(e) + "` is neither an equality of points nor a comparison of directions"
+			return ""
+		}
+		if se, ok := call.Fun.(*ast.SelectorExpr); ok && se.Sel.Name == "Equals" && len(call.Args) == 1 {
+			a, ok1 := core.Unparen(se.X).(*ast.Ident)
+			b, ok2 := core.Unparen(call.Args[0]).(*ast.Ident)
+			if ok1 && ok2 {
+				n := []string{swap(a.Name), swap(b.Name)}
+				sort.Strings(n)
+				return neg + "eq{" + n[0] + "," + n[1] + "}"
+			}
+		}
+		// angleEqual(V1.AngleBetween(V2), 0)
+		if f := core.CalleeOf(info, call); f != nil && f.Name() == "angleEqual" && len(call.Args) == 2 {
+			if v := core.ConstVal(info, call.Args[1]); v != nil && numSign(v) == 0 {
+				if ab, ok := core.Unparen(call.Args[0]).(*ast.CallExpr); ok && len(ab.Args) == 1 {
+					if se, ok := ab.Fun.(*ast.SelectorExpr); ok && se.Sel.Name == "AngleBetween" {
+						t1, f1, ok1 := vec(se.X, 0)
+						t2, f2, ok2 := vec(ab.Args[0], 0)
+						if ok1 && ok2 {
+							t1, f1, t2, f2 = swap(t1), swap(f1), swap(t2), swap(f2)
+							a := fmt.Sprintf("same-dir(%s-%s,%s-%s)", t1, f1, t2, f2)
+							b := fmt.Sprintf("same-dir(%s-%s,%s-%s)", f1, t1, f2, t2)
+							// the angle between two vectors is that between their negatives; the order of the two does not matter for "same direction"
+							a2 := fmt.Sprintf("same-dir(%s-%s,%s-%s)", t2, f2, t1, f1)
+							b2 := fmt.Sprintf("same-dir(%s-%s,%s-%s)", f2, t2, f1, t1)
+							all := []string{a, b, a2, b2}
+							sort.Strings(all)
+							return neg + all[0]
+						}
+					}
+				}
+			}
+		}
+		bad = "`" + c.Src(e) + "` is neither an equality of points nor a comparison of directions"
+		return ""
+	}
+	var conj func(e ast.Expr, out *[]ast.Expr)
+	conj = func(e ast.Expr, out *[]ast.Expr) {
+		e = core.Unparen(e)
+		if be, ok := e.(*ast.BinaryExpr); ok && be.Op == token.LAND {
+			conj(be.X, out)
+			conj(be.Y, out)
+			return
+		}
+		*out = append(*out, e)
+	}
+	var disj func(e ast.Expr, out *[]ast.Expr)
+	disj = func(e ast.Expr, out *[]ast.Expr) {
+		e = core.Unparen(e)
+		if be, ok := e.(*ast.BinaryExpr); ok && be.Op == token.LOR {
+			disj(be.X, out)
+			disj(be.Y, out)
+			return
+		}
+		*out = append(*out, e)
+	}
+	// the two end points: the Point locals built from the receiver's position and from the last two parameters
+	startName, endName := "start", "end"
+	{
+		var names []string
+		ast.Inspect(target.Cond, func(k ast.Node) bool {
+			if id, ok := k.(*ast.Ident); ok {
+				if o := core.ObjOf(info, id); o != nil && isNamed(o.Type(), "tdewolff/canvas", "Point") {
+					names = append(names, id.Name)
+				}
+			}
+			return true
+		})
+		has := func(n string) bool {
+			for _, x := range names {
+				if x == n {
+					return true
+				}
+			}
+			return false
+		}
+		if !has(startName) || !has(endName) {
+			r.Fail("E11.quad-line-test-mirror", key, c.Pos(target.Pos()), "the condition does not name the start and end points (`start`, `end`)")
+			return
+		}
+	}
+	form := func(swap func(string) string) []string {
+		var cs []ast.Expr
+		conj(target.Cond, &cs)
+		var out []string
+		for _, cj := range cs {
+			var ds []ast.Expr
+			disj(cj, &ds)
+			var atoms []string
+			for _, d := range ds {
+				atoms = append(atoms, atom(d, swap))
+			}
+			sort.Strings(atoms)
+			out = append(out, strings.Join(atoms, " | "))
+		}
+		sort.Strings(out)
+		return out
+	}
+	id := func(s string) string { return s }
+	sw := func(s string) string {
+		switch s {
+		case startName:
+			return endName
+		case endName:
+			return startName
+		}
+		return s
+	}
+	a, b := form(id), form(sw)
+	switch {
+	case bad != "":
+		r.Fail("E11.quad-line-test-mirror", key, c.Pos(target.Pos()), bad)
+	case strings.Join(a, " & ") != strings.Join(b, " & "):
+		r.Fail("E11.quad-line-test-mirror", key, c.Pos(target.Pos()), fmt.Sprintf("the condition is [%s]; seen from the other end it reads [%s]: the control point is not tested against both end points, so one beyond an end — a curve that overshoots and comes back — is stored as a straight line", strings.Join(a, " & "), strings.Join(b, " & ")))
+	default:
+		r.OK("E11.quad-line-test-mirror", key, c.Pos(target.Pos()), strings.Join(a, " & "))
+	}
+}
+
+// E11SVGAttributeIndependence: a presentation attribute sets its own property and no other.
+func E11SVGAttributeIndependence(c *core.Ctx, r *core.Report) {
+	r.Rule("E11.svg-attribute-independence", "SVG presentation attributes are independent properties, each inherited and overridden on its own. In svgParser.setAttribute the style fields a case writes — directly (`svg.ctx.Style.F = …`) or through a Context setter, whose written fields are read off its body — are disjoint from those of every other case. `stroke-dasharray` handled with `SetDashes(0, …)` also writes the dash offset: an offset set before the array (another attribute order, a parent group, a presentation attribute under a style rule) is lost and the dashes start at phase 0")
+	p := c.MustPkg("")
+	info := p.TypesInfo
+	fd := core.MustFuncDecl(p, "svgParser.setAttribute")
+	// fields of Style (or ContextState) written by a Context method
+	setterFields := map[*types.Func]map[string]bool{}
+	for _, d := range core.AllFuncDecls(p) {
+		if d.Recv == nil || d.Body == nil || core.RecvName(d) != "Context" {
+			continue
+		}
+		f, _ := info.Defs[d.Name].(*types.Func)
+		if f == nil {
+			continue
+		}
+		fields := map[string]bool{}
+		ast.Inspect(d.Body, func(m ast.Node) bool {
+			if as, ok := m.(*ast.AssignStmt); ok {
+				for _, l := range as.Lhs {
+					if se, ok := core.Unparen(l).(*ast.SelectorExpr); ok {
+						if s := info.Selections[se]; s != nil && s.Kind() == types.FieldVal {
+							fields[se.Sel.Name] = true
+						}
+					}
+				}
+			}
+			return true
+		})
+		setterFields[f] = fields
+	}
+	type caseInfo struct {
+		name   string
+		fields map[string]bool
+		pos    token.Pos
+	}
+	var cases []caseInfo
+	ast.Inspect(fd.Body, func(m ast.Node) bool {
+		cc, ok := m.(*ast.CaseClause)
+		if !ok || len(cc.List) == 0 {
+			return true
+		}
+		name, ok := constString(info, cc.List[0])
+		if !ok {
+			return true
+		}
+		fields := map[string]bool{}
+		for _, st := range cc.Body {
+			ast.Inspect(st, func(k ast.Node) bool {
+				switch x := k.(type) {
+				case *ast.AssignStmt:
+					for _, l := range x.Lhs {
+						if se, ok := core.Unparen(l).(*ast.SelectorExpr); ok {
+							if s := info.Selections[se]; s != nil && s.Kind() == types.FieldVal {
+								if _, isStyle := core.Unparen(se.X).(*ast.SelectorExpr); isStyle {
+									fields[se.Sel.Name] = true
+								}
+							}
+						}
+					}
+				case *ast.CallExpr:
+					if f := core.CalleeOf(info, x); f != nil {
+						for fld := range setterFields[f] {
+							fields[fld] = true
+						}
+					}
+				}
+				return true
+			})
+		}
+		cases = append(cases, caseInfo{name, fields, cc.Pos()})
+		return false
+	})
+	n := 0
+	for i := range cases {
+		n++
+		key := "canvas.svgParser.setAttribute|" + cases[i].name + " writes its own property only"
+		bad := ""
+		for j := range cases {
+			if i == j {
+				continue
+			}
+			for f := range cases[i].fields {
+				if f == "StrokeJoiner" {
+					// reviewed: stroke-linejoin and stroke-miterlimit meet in one field by design (the miter joiner
+					// carries its limit); how each preserves the other's part is decided by E11.svg-miterlimit-carried
+					continue
+				}
+				if cases[j].fields[f] && bad == "" {
+					bad = fmt.Sprintf("the case \"%s\" also writes %s, the property of \"%s\": whichever of the two is handled last wins, although SVG sets and inherits them independently", cases[i].name, f, cases[j].name)
+				}
+			}
+		}
+		if bad == "" {
+			var fs []string
+			for f := range cases[i].fields {
+				fs = append(fs, f)
+			}
+			sort.Strings(fs)
+			r.OK("E11.svg-attribute-independence", key, c.Pos(cases[i].pos), strings.Join(fs, ","))
+		} else {
+			r.Fail("E11.svg-attribute-independence", key, c.Pos(cases[i].pos), bad)
+		}
+	}
+	r.Count("E11.svg-attribute-cases", n)
+	r.Floor("E11.svg-attribute-cases", 10)
 }
